@@ -171,9 +171,31 @@ func C14(c *core.Ctx) {
 			if !ok {
 				return
 			}
-			if cl, ok := core.Strip(r.Results[0]).(*ssa.Call); ok {
+			res := core.Strip(r.Results[0])
+			var final ssa.Instruction = r
+			// `return a.Typ == b.Typ && len(a.Val) == len(b.Val) && bytes.Equal(…)`: the
+			// value is a join of constant false (the conjuncts that failed) and the call,
+			// which is made only behind the conjuncts — the call is the decision
+			if ph, isPhi := res.(*ssa.Phi); isPhi && fnm == "Equal" {
+				var only *ssa.Call
+				okPhi := true
+				for _, e := range ph.Edges {
+					if b, isC := core.ConstBool(core.Strip(e)); isC && !b {
+						continue
+					}
+					if cl, isCall := core.Strip(e).(*ssa.Call); isCall && only == nil {
+						only = cl
+						continue
+					}
+					okPhi = false
+				}
+				if okPhi && only != nil {
+					res, final = only, only
+				}
+			}
+			if cl, ok := res.(*ssa.Call); ok {
 				if _, ok := core.IsCall(cl, core.CalleeID{Pkg: "bytes", Name: prim}); ok {
-					finals = append(finals, r)
+					finals = append(finals, final)
 					a, b := cl.Call.Args[0], cl.Call.Args[1]
 					okArgs := fieldSide(a, "Val") == 0 && fieldSide(b, "Val") == 1
 					if fnm == "Equal" {
@@ -492,6 +514,17 @@ func C14(c *core.Ctx) {
 			if elemIndexOf(recv, n) != nil {
 				feed = ci
 			}
+			// the loop over the components in a worker that is handed the name
+			// (n.hashInto(h)): the worker's parameter stands for the name
+			if g := ci.Parent(); g != fn && feed == nil {
+				restore := core.WithRoot(fn)
+				for _, prm := range g.Params {
+					if core.Strip(core.Resolve(prm)) == n && elemIndexOf(recv, prm) != nil {
+						feed = ci
+					}
+				}
+				restore()
+			}
 		}
 		ok := feed != nil
 		var resets []ssa.Instruction
@@ -522,7 +555,7 @@ func C14(c *core.Ctx) {
 		})
 		if ok {
 			h := loopHeader(feed.Block())
-			ok = h != nil && everyIterationPasses(fn, h, func(in ssa.Instruction) bool { return in == ssa.Instruction(feed) })
+			ok = h != nil && everyIterationPasses(feed.Parent(), h, func(in ssa.Instruction) bool { return in == ssa.Instruction(feed) })
 			switch {
 			case len(resets) == 1:
 				ok = ok && !core.InLoop(resets[0].Block()) && core.PrecedesDeep(fn, feed, func(in ssa.Instruction) bool { return in == resets[0] })
